@@ -58,6 +58,8 @@ TEMPLATES = {
     "gather": ("gather", ["data", "indices"], ["output"]),
     "expand": ("expand", ["input", "shape"], ["output"]),
     "concat": ("concat", ["inputs"], ["concat_result"]),
+    # an inlined LEGACY model (opset 11, inner names x / y / z / w): re-targeted by adapt_inline
+    "inline11": ("inline11", ["x", "y", "z"], ["w", "z_out"]),
 }
 COMMON_NAMES = ["A", "B", "C", "X", "Y", "Z", "input", "output", "data", "shape", "axes", "indices", "value", "x", "y"]
 
@@ -178,6 +180,9 @@ def gen_mixed(rng, template: Optional[str] = None) -> dict:
     elif t == "concat":
         ins = [operand(K(), fdt, [n, m], fl(n * m)), operand(K(), fdt, [1, m], fl(m))]
         kw = {"axis": 0}
+    elif t == "inline11":
+        ins = [operand(K(), "f32", [n, m], fl(n * m)), operand(K(), "f32", [n, m], fl(n * m))]
+        kw = {"shape": [n, m]}
     else:
         raise ValueError(t)
     # at least one model input somewhere (so that there IS a user-named graph input feeding the node or next to it)
@@ -227,6 +232,22 @@ def gen_mixed(rng, template: Optional[str] = None) -> dict:
     return {"ops": ops, "names": names, "template": t, "companion": comp}
 
 
+_L11: dict = {}
+
+
+def _legacy11(shape: tuple):
+    """opset-11 model: z = Add(x, y); w = Softmax(z) (legacy flatten-to-2-D meaning); outputs w and z_out = Neg(z)."""
+    import onnx
+    import onnx.helper as oh
+
+    if shape not in _L11:
+        vi = lambda nm: oh.make_tensor_value_info(nm, onnx.TensorProto.FLOAT, list(shape))  # noqa: E731
+        g = oh.make_graph([oh.make_node("Add", ["x", "y"], ["z"]), oh.make_node("Softmax", ["z"], ["w"], axis=0),
+                           oh.make_node("Neg", ["z"], ["z_out"])], "legacy11", [vi("x"), vi("y")], [vi("w"), vi("z_out")])
+        _L11[shape] = oh.make_model(g, opset_imports=[oh.make_operatorsetid("", 11)], ir_version=7)
+    return _L11[shape]
+
+
 def _run(case: dict, sel: str):
     """Construct the program under backend `sel`; -> list of Vars per op (tuple for multi-output)."""
     import spox.opset.ai.onnx.v17 as op
@@ -252,6 +273,10 @@ def _run(case: dict, sel: str):
                     vals.append(getattr(op, o["fn"])(vals[o["a"]]))
                 elif k == "cast":
                     vals.append(op.cast(vals[o["a"]], to=NP[o["to"]]))
+                elif k == "op17" and o["fn"] == "inline11":
+                    from spox import inline
+
+                    vals.append(tuple(inline(_legacy11(tuple(o["kw"]["shape"])))(*[vals[i] for i in o["ins"]]).values()))
                 elif k == "op17":
                     kw = dict(o["kw"])
                     if "to" in kw:
